@@ -145,6 +145,14 @@ def run_case(case, ctx):
     if not abs(Z_l - float(np.sum(prob_l))) <= 1e-11 * Z_l:
         ctx.violation("normalization-vs-sum", f"normalization={Z_l!r}, sum of probabilities {float(np.sum(prob_l))!r}",
                       witness=wit)
+    if N > 1:
+        operm = [np.arange(N)[::-1].copy(), np.array([int(format(i_, f"0{nv}b")[::-1], 2) for i_ in range(N)]), rng.permutation(N)][int(rng.integers(0, 3))]
+        psp, pform = gen.memory_form(sp[operm.tolist()].clone(), rng)
+        Zp = float(ctx.lib("normalization(permuted space)", st.normalization, psp, tags={"memory_form": pform}))
+        ctx.count("normalisations_of_permuted_spaces")
+        if not abs(Zp - Z_l) <= 1e-11 * abs(Z_l):
+            ctx.violation("normalization-depends-on-row-order", f"normalization of the full basis listed in another order ({operm.tolist()[:8]}.., "
+                          f"{pform}) = {Zp!r}, in counting order {Z_l!r}", witness=wit)
     for zname, zarg in (("tensor", Z), ("float", float(Z_l)), ("numpy.float64", np.float64(Z_l))):
         pn = ctx.lib(f"probability(Z as {zname})", st.probability, sp, zarg, tags={"Z_form": zname}).numpy()
         if np.any(np.abs(pn - prob_l / Z_l) > 1e-12 * (prob_l / Z_l) + 1e-300) or abs(float(pn.sum()) - 1) > 1e-10:
